@@ -147,6 +147,12 @@ impl ConnectionManager {
                 connecting = self.endpoint.accept() => {
                     if let Some(connecting) = connecting {
                         self.handle_incoming(connecting);
+                    } else {
+                        // `None` means this incoming connection could not be accepted, but once
+                        // the endpoint's driver is gone (e.g. the runtime is shutting down) it is
+                        // yielded every time: yield so such a stream of `None`s never keeps the
+                        // event loop from being cancelled.
+                        tokio::task::yield_now().await;
                     }
                 },
                 Some(connecting_output) = self.pending_connections.join_next() => {
